@@ -23,6 +23,15 @@ func checkC05(c *Ctx) {
 	if !c.Need("processor", r.Processor, "receiver", r.Receiver, "sender", r.Sender, "accept", r.Accept, "teardown", r.Stop) {
 		return
 	}
+	// one broken subscriber does not keep a message from the others: both fan-out sites visit every matched
+	// subscriber whatever the earlier deliveries returned
+	if r.HandOver != nil {
+		c.useRules(ruleP4, ruleP2)
+		c.fanOut(r.HandOver)
+		if sp := c.P.Func("service", "Server", "Publish"); sp != nil {
+			c.fanOut(sp)
+		}
+	}
 	// decoders are total (B1/B2): which obligations are open?
 	an := bounds.NewAnalyzer(c.P)
 	entries := c.decodeEntries()
